@@ -22,6 +22,9 @@ type Conc struct {
 	Cfgs  []Cfg `json:"cfgs"`  // one configuration per instance
 	Sched []int `json:"sched"` // which instance issues the next statement (finished instances are skipped)
 	Crash []bool `json:"crash"` // instances that stop for good when the schedule ends (never drained)
+	// Faults: per instance (nil = none): its At-th own statement returns an error, having taken effect or not; the
+	// instance's Rotate then returns that error (a connection fault in the middle of concurrent runs)
+	Faults []*Fault `json:"faults,omitempty"`
 	// observations
 	Eff   []int      `json:"eff"`  // the instances in the order their statements were granted (schedule, then drain)
 	Log   []ConcCall `json:"log"`
@@ -41,9 +44,17 @@ type gate struct {
 // gated is the connection one instance sees.
 type gated struct {
 	*fake
-	id  int
-	g   *gate
-	out *[]ConcCall
+	id    int
+	g     *gate
+	out   *[]ConcCall
+	own   int    // statements this instance has issued
+	fault *Fault // its own fault
+}
+
+func (c *gated) faulty() bool {
+	hit := c.fault != nil && c.own == c.fault.At
+	c.own++
+	return hit
 }
 
 func (c *gated) turn(do func()) {
@@ -55,12 +66,31 @@ func (c *gated) turn(do func()) {
 }
 
 func (c *gated) Exec(ctx context.Context, query string, args ...any) (err error) {
-	c.turn(func() { err = c.fake.Exec(ctx, query, args...) })
+	c.turn(func() {
+		if !c.faulty() {
+			err = c.fake.Exec(ctx, query, args...)
+			return
+		}
+		if c.fault.Eff {
+			_ = c.fake.Exec(ctx, query, args...)
+			c.fake.log[len(c.fake.log)-1].OK = false
+		} else {
+			c.fake.logFailed(false, query, args)
+		}
+		err = errInjected
+	})
 	return
 }
 
 func (c *gated) Query(ctx context.Context, query string, args ...any) (rows driver.Rows, err error) {
-	c.turn(func() { rows, err = c.fake.Query(ctx, query, args...) })
+	c.turn(func() {
+		if !c.faulty() {
+			rows, err = c.fake.Query(ctx, query, args...)
+			return
+		}
+		c.fake.logFailed(true, query, args)
+		err = errInjected
+	})
 	return
 }
 
@@ -85,6 +115,9 @@ func runConc(f *fake, cc *Conc) {
 			days[j] = maintenance.RotatePolicy{TTL: time.Duration(p.NS), MoveTo: p.Disk}
 		}
 		conn := &gated{fake: f, id: i, g: g, out: &cc.Log}
+		if i < len(cc.Faults) {
+			conn.fault = cc.Faults[i]
+		}
 		go func() {
 			defer close(g.fin[i])
 			pn[i] = hx.Catch(func() {
@@ -185,6 +218,15 @@ func genConc(r *rand.Rand, id int) Case {
 		c.Class += "+crash"
 		for i := 0; i < n; i++ {
 			cc.Crash[i] = r.Intn(2) == 0
+		}
+	}
+	if r.Intn(3) == 0 { // connection faults in the middle of the concurrent runs: the instance's Rotate returns the error
+		c.Class += "+fault"
+		cc.Faults = make([]*Fault, n)
+		for i := 0; i < n; i++ {
+			if r.Intn(3) > 0 {
+				cc.Faults[i] = &Fault{At: r.Intn(30), Eff: r.Intn(2) == 0}
+			}
 		}
 	}
 	c.Conc = cc
